@@ -548,6 +548,41 @@ def mode_blocked(data):
         t.join(TIMEOUT)
         if bad:
             out["mismatches"].append({"depth": 1, "managers": nouter + 1, "mode": "blocked in __exit__", "bad": bad})
+    # a blocked thread one of whose frames defeats the context analysis (a manager whose __exit__ is static), while the
+    # application turns warnings into errors: extract(thread) still does not raise and still returns the thread's frames
+    ev, ready = threading.Event(), threading.Event()
+
+    class StaticExit:
+        def __enter__(self):
+            return self
+
+        @staticmethod
+        def __exit__(*a):
+            return False
+
+    def awkward():
+        with StaticExit():
+            ready.set()
+            ev.wait(TIMEOUT)
+    t = threading.Thread(target=awkward, daemon=True)
+    t.start()
+    ready.wait(TIMEOUT)
+    time.sleep(0.01)
+    out["n"] += 1
+    bad = []
+    with warnings.catch_warnings():
+        warnings.simplefilter("error")
+        try:
+            st = stackscope.extract(t)
+            names = [f.funcname for f in st.frames]
+            if "awkward" not in names or "wait" not in names:
+                bad.append("warnings as errors, a frame whose context analysis fails: frames %s" % names)
+        except BaseException as ex:
+            bad.append("warnings as errors, a frame whose context analysis fails: extract(thread) raised %r" % (ex,))
+    ev.set()
+    t.join(TIMEOUT)
+    if bad:
+        out["mismatches"].append({"depth": 1, "managers": 1, "mode": "context analysis fails", "bad": bad})
     return out
 
 
